@@ -9,7 +9,8 @@ sys.path.insert(0, VERIF)
 
 COMMON_NOTE = ("Modelled parts and how they are bound to the implementation: serialised scheduling / virtual clock / emulated exec are re-run against "
                "free-running, real-clock and real-exec executions of the same configurations (DESIGN.md 8.1; counts in the evidence). Trusted base: Linux kernel + glibc answers for every call that is not an injected fault; gcc; objcopy symbol renaming; "
-               "the harness code in /verif (vk wrappers, scripted helper, oracles). Scheduling granularity is the intercepted libc call; "
+               "the harness code in /verif (vk wrappers, scripted helper, oracles). Scheduling granularity is the intercepted libc call (a libc symbol the library reaches "
+               "that vk does not interpose is named in the evidence and clears `exhaustive`); "
                "the scripted child never touches the exit descriptor. POSIX sources only.")
 
 CHECKS = {
@@ -19,7 +20,8 @@ CHECKS = {
         text="Every exit code 0..255 and every terminating signal, every API history up to depth 3 (quick) / 4 (thorough) over "
              "{wait 0/2/INF, terminate, kill, three stop sequences}, every point at which the child's end can be released relative to the "
              "library's poll/kill/waitpid/close calls (all alternatives at blocked calls, up to 2 scheduling deviations elsewhere) and, in the "
-             "thorough tier, every single fault at poll/waitpid/kill: status equals the ending the harness caused, is never returned while the "
+             "thorough tier, every single fault at poll/waitpid/kill (waitpid also answering ECHILD: somebody else reaped the child, after which no status may "
+             "ever be returned): status equals the ending the harness caused, is never returned while the "
              "child ledger says running, is stable with zero further system calls, exactly one successful reap, no zombie."),
     "C04": dict(
         cat="model_checking", design="3/C04",
@@ -27,14 +29,14 @@ CHECKS = {
         text="14 start scenarios (all redirect kinds, input, workdir+relative program, extra env, nonblocking, fork mode with the forked side first or the parent first, "
              "a standard descriptor of the parent as source of another stream, parent streams with stdin and stderr closed) "
              "x every answer of every fault menu at every libc call reproc_start makes in the parent and in the forked child, one at a time (quick) and "
-             "in pairs (thorough); 10 natural failures with the real exec (missing/non-executable/over-long program, bad working directory, unusable "
-             "redirect path, oversized input, name not in PATH), each also combined with every single fault. Oracle by outcome: either a negative result that "
+             "in pairs (thorough); 12 natural failures with the real exec (missing/non-executable/over-long program, bad working directory, unusable "
+             "redirect path, oversized input, name not in PATH, a stream sent to its own descriptor number that the caller has closed), each also combined with every single fault. Oracle by outcome: either a negative result that "
              "is the errno of a failing call, no child left, pid EINVAL, handle startable again - or success with positive ledger pid, the helper image "
              "really running, stream identities right and a write/read/wait round trip."),
     "C05": dict(
         cat="model_checking", design="3/C05",
         technique="stateless model checking of the real library: exhaustive single-fault (quick) / fault-pair (thorough) enumeration over every intercepted libc call on both sides of fork, under a controlled libc layer",
-        text="14 redirect/option scenarios x 7 API histories (destroy, wait, write/close/read-to-EOF, drain, terminate/wait/kill, kill/wait, run_ex) with "
+        text="14 redirect/option scenarios x 8 API histories (destroy, wait, write/close/read-to-EOF, drain, terminate/wait/kill, kill/wait, run_ex, deadline passes then poll/drain/kill/wait) with "
              "user-owned FILE/handles/std streams, x every fault (including close EINTR/EIO and every allocation) at every libc call of the whole history: "
              "descriptor ledger empty and /proc/self/fd equal to the initial table, heap ledger empty, no foreign/double close or free (recorded and not "
              "executed), user objects still open on the same inode, children reaped."),
@@ -61,7 +63,7 @@ CHECKS = {
              "clock and never after the child's exit; status iff reaped and exact; ETIMEDOUT iff every slot ran and no wait could have seen the exit; "
              "EINVAL only at a reached out-of-range slot; a hang only inside an infinite slot with a child that cannot end. Every 11th (quick) / 3rd (thorough) "
              "configuration additionally under one failing kill() or one poll() interrupted by a signal after any elapsed time: the error is returned at "
-             "that instant, nothing later. Thorough adds the handle state 'exited, reap interrupted'."),
+             "that instant, nothing later. The handle state 'exited, reap interrupted' for every 8th triple (quick) / all (thorough)."),
     "C15": dict(
         cat="model_checking", design="3/C15",
         technique="stateless model checking of the real library: the C07 space driven through options.stop + reproc_destroy, plus handle-state enumeration",
@@ -99,12 +101,13 @@ CHECKS = {
              "drain) x stdin feeds {0,1,7,cap,cap+1, start-up input}, the stdin scripts also with the forked side of fork mode as the child; child steps released at every scheduling point (up to 3 deviations quick / 4 thorough "
              "for small payloads) and at every blocked read/write/poll. Position-dependent payload: every returned byte is compared with what the child "
              "wrote at that offset (kernel write order for the merged stream); EPIPE only once the child has closed every descriptor on the stream and all "
-             "bytes were returned, then sticky without a system call; stdin bytes and EOF arrive; a blocked read after the child closed the stream is a violation."),
+             "bytes were returned, then sticky without a system call; stdin bytes and EOF arrive; a blocked read after the child closed the stream is a violation; "
+             "after a write was refused because the reader is gone, no later write is accepted or lands in a descriptor the caller opened since."),
     "C16": dict(
         cat="model_checking", design="3/C16",
         technique="stateless model checking of the real library: exhaustive interleavings x sink failure position x allocation-failure position x deadline expiry point, protocol oracle over the recorded sink calls",
         text="6 two-stream scripts x sizes {0,1,4096,9000} (thorough adds 4095/4097) x stderr {pipe, stdout, parent} x sinks {recording, failing with a "
-             "negative/positive value at call k, string sink from NULL / pre-filled / shared by both streams} x realloc failure at every growth step x "
+             "negative (alternately -5 and the library's own closed-pipe value) / positive value at call k, string sink from NULL / pre-filled / shared by both streams} x realloc failure at every growth step x "
              "deadline {none, 1..3 ms} expiring before/between/after output, through reproc_drain and reproc_run_ex. Oracle: two initial (in, 0) calls, "
              "chunks equal the stream byte for byte, exactly one size-0 call per piped stream after its data, 0 iff both ended, first non-zero sink value "
              "returned with no later call, ETIMEDOUT only at the deadline and no call inside drain still blocked after it, string = previous content + bytes "
@@ -158,7 +161,7 @@ CHECKS = {
     "C14": dict(
         cat="model_checking", design="3/C14 + Appendix E",
         technique="explicit-state breadth-first search over API histories of the real library (each transition replays the history in a fresh process), states deduplicated by a canonical digest, reference life-cycle model as oracle, ASan+UBSan build",
-        text="Alphabet of 28 operations: start {echo child, exit-at-once child, invalid options, failing program with a deadline}, pid, write, write(NULL,0), "
+        text="Alphabet of 30 operations: start {echo child, exit-at-once child, invalid options, failing program with a deadline, echo child with start-up input of size 0}, pid, write, write(NULL,0), "
              "read out/err/size 0/invalid stream/NULL buffer, close in/out/err/invalid, poll (mask 15, timeout 0) / poll(NULL) / zero sources, wait(0), "
              "wait(DEADLINE), terminate, kill, stop{wait 0}, stop{kill INF}, destroy + fresh handle, every API with a NULL handle, and the environment "
              "operations 'child performs its next step' and 'time passes'. Histories of length 4 (quick) / 6 (thorough), every newly found state expanded "
@@ -197,7 +200,7 @@ CHECKS = {
              "shows no descriptor of the other thread's pipes, and right after a thread's close(IN) its own child sees EOF with nobody else moving - all "
              "schedules with <=1 preemption (thorough <=2), emulated and real exec. (A) writer thread (3 + cap+1 bytes, close) and reader thread on one "
              "echo child, <=2 (3) preemptions: reader gets exactly the writer's bytes. (C) reproc_strerror from two threads with a switch between call "
-             "and use. (D) two threads each draining its own echo child with reproc_drain, the sink yielding before it looks at its chunk: only its own bytes. "
+             "and use. (E) one thread whose starts fail after the fork beside another thread's whole life cycle: every waitpid/kill names the caller's own child. (D) two threads each draining its own echo child with reproc_drain, the sink yielding before it looks at its chunk: only its own bytes. "
              "Data races below call granularity are looked for by a free-running TSan build (60 / 400 runs of three concurrent life cycles, two concurrent drains of 64 KiB and a "
              "reader/writer pair on real cat/sh children): a monitor, not an enumeration."),
 }
